@@ -22,11 +22,11 @@ P0 == [name |-> <<80>>,
                                         Mb(<<97>>, Atomic(195), 0, 2, -1), Mb(<<99>>, Atomic(194), 2, 4, -1) >>],
                         [id |-> 301, name |-> <<83, 84, 82, 52>>, handle |-> 22136, size |-> 8, namepad |-> 0,
                          members |-> << Mb(LenName, Atomic(196), 0, 0, -1), Mb(DataName, Atomic(194), 4, 4, -1) >>] >>,
-       symbols |-> << [name |-> TagD, iid |-> <<0, 5>>, scope |-> <<>>, kind |-> "tag", t |-> Atomic(196), dims |-> <<0, 0, 0>>, typeword |-> 0, sysflag |-> 0, sc |-> <<0, 0, 0, 4>>, access |-> 0],
-                      [name |-> TagA, iid |-> <<0, 6>>, scope |-> <<>>, kind |-> "tag", t |-> Atomic(195), dims |-> <<3, 0, 0>>, typeword |-> 0, sysflag |-> 0, sc |-> <<0, 0, 0, 4>>, access |-> 0],
-                      [name |-> TagB, iid |-> <<0, 7>>, scope |-> <<>>, kind |-> "tag", t |-> Atomic(211), dims |-> <<2, 0, 0>>, typeword |-> 0, sysflag |-> 0, sc |-> <<0, 0, 0, 4>>, access |-> 0],
-                      [name |-> TagU, iid |-> <<0, 8>>, scope |-> <<>>, kind |-> "tag", t |-> [k |-> "struct", tid |-> 300], dims |-> <<0, 0, 0>>, typeword |-> 0, sysflag |-> 0, sc |-> <<0, 0, 0, 4>>, access |-> 0],
-                      [name |-> TagS, iid |-> <<0, 9>>, scope |-> <<>>, kind |-> "tag", t |-> [k |-> "struct", tid |-> 301], dims |-> <<0, 0, 0>>, typeword |-> 0, sysflag |-> 0, sc |-> <<0, 0, 0, 4>>, access |-> 0] >>]
+       symbols |-> << [name |-> TagD, iid |-> <<0, 5>>, scope |-> <<>>, kind |-> "tag", t |-> Atomic(196), dims |-> <<0, 0, 0>>, typeword |-> 0, bitpos |-> 0, sysflag |-> 0, sc |-> <<0, 0, 0, 4>>, access |-> 0],
+                      [name |-> TagA, iid |-> <<0, 6>>, scope |-> <<>>, kind |-> "tag", t |-> Atomic(195), dims |-> <<3, 0, 0>>, typeword |-> 0, bitpos |-> 0, sysflag |-> 0, sc |-> <<0, 0, 0, 4>>, access |-> 0],
+                      [name |-> TagB, iid |-> <<0, 7>>, scope |-> <<>>, kind |-> "tag", t |-> Atomic(211), dims |-> <<2, 0, 0>>, typeword |-> 0, bitpos |-> 0, sysflag |-> 0, sc |-> <<0, 0, 0, 4>>, access |-> 0],
+                      [name |-> TagU, iid |-> <<0, 8>>, scope |-> <<>>, kind |-> "tag", t |-> [k |-> "struct", tid |-> 300], dims |-> <<0, 0, 0>>, typeword |-> 0, bitpos |-> 0, sysflag |-> 0, sc |-> <<0, 0, 0, 4>>, access |-> 0],
+                      [name |-> TagS, iid |-> <<0, 9>>, scope |-> <<>>, kind |-> "tag", t |-> [k |-> "struct", tid |-> 301], dims |-> <<0, 0, 0>>, typeword |-> 0, bitpos |-> 0, sysflag |-> 0, sc |-> <<0, 0, 0, 4>>, access |-> 0] >>]
 Key(n) == <<<<>>, n>>
 Mem(v) == << [key |-> Key(TagA), b |-> [i \in 1..6 |-> v]], [key |-> Key(TagB), b |-> [i \in 1..8 |-> v]], [key |-> Key(TagD), b |-> [i \in 1..4 |-> v]],
              [key |-> Key(TagS), b |-> <<2, 0, 0, 0, v, v, v, v>>], [key |-> Key(TagU), b |-> [i \in 1..8 |-> v]] >>
